@@ -112,6 +112,23 @@ CHECKS.update(
     ),
 )
 
+CHECKS.update(
+    C19=dict(
+        category="other",
+        text="(A) z3's regular-expression theory compares the acceptance language of the two patterns of _check_format_spec (read from the "
+        "current source) with the documented grammar: one query over a string of unbounded length. (B) The real _check_format_spec, "
+        "_check_formatting, _get_style_format_spec, _check_style_format_spec and _check_style_args of the three styles run on strings "
+        "of length <= 5 (quick) / 7 (thorough) whose characters are z3 integers over printable ASCII, with the compiled patterns "
+        "replaced by a backtracking matcher over the same sre_parse trees; a reference parser written from the documentation runs on the "
+        "same characters; acceptance, error type, alignment, padding size, alpha, style arguments and the draw()-parameter equivalence are "
+        "unsat queries per path.",
+        note="Trusted: z3 (sequence/regex theory), the symbolic matcher sx/rx.py (differentially tested against re on every run), the "
+        "reference parser (harness/C19.py, from docs/source/guide/formatting.rst). Strings longer than the bound are covered by (A) only.",
+        design="3 C19",
+        technique="z3 regular-expression equivalence (unbounded) + bounded symbolic execution of the real parsing code over symbolic characters",
+    ),
+)
+
 PENDING = {}
 
 
